@@ -385,8 +385,51 @@ def rule_closure_lifetime(ck, facts):
         ck.bad(R, key, "the exported closure executor restores the allocation pointer after the scheduled closure returns, while %s stores the closure address it is given until a later sample: a closure created inside a running task (`a@(now+2.0)` inside `a`) is reclaimed at once and its memory is reused by the next task's closure — with two different self-rescheduling functions the WASM runtime runs the wrong one" % g.short, f.where(rewinds))
 
 
+def rule_handoff(ck, facts):
+    """never dropped: the hand-off of a newly scheduled task to the queue cannot fail silently"""
+    R = "C11.handoff"
+    ck.rule(R, "a task accepted by `@` reaches the pending queue: every hand-off in the scheduler is a heap push or a channel `send` whose failure aborts (unwrap/expect) or is returned; a `try_send` / `try_push` whose error is only logged or ignored drops tasks when the queue is full, and the channel that carries tasks to the audio worker is not created with a capacity (`sync_channel(n)`): more than n `@` calls between two ticks would block or be dropped")
+    n = 0
+    for f in facts.crate(SCHED).fns:
+        if f.kind == "promoted" or "::test" in f.path:
+            continue
+        di = None
+        for b, t in f.calls():
+            c = callee(t) or ""
+            short = c.split("::")[-1]
+            if short == "sync_channel" and "mpsc" in c:
+                n += 1
+                ck.bad(R, "bounded-channel|%s" % f.short, "%s creates the task channel with a fixed capacity: once that many tasks were scheduled between two audio ticks, further `@` calls block the caller or (with try_send) are dropped" % f.short, f.where(t))
+            elif short == "channel" and "mpsc" in c:
+                n += 1
+                ck.ok(R, "unbounded-channel|%s" % f.short)
+            if short in ("try_send", "try_push", "send_timeout") and ("mpsc" in c or "Sender" in c):
+                n += 1
+                # is the result used to abort or returned?
+                di = di or DefIndex(f)
+                dest = t[6][0] if t[6] is not None else None
+                aborts = False
+                if dest is not None:
+                    for b2, t2 in f.calls():
+                        c2 = (callee(t2) or "").split("::")[-1]
+                        if c2 in ("unwrap", "expect", "unwrap_or_else") and any(a[0] in ("cp", "mv") and a[1][0] == dest for a in t2[5]):
+                            aborts = True
+                    for _, st in f.all_stmts():
+                        if st[KIND] == "a" and st[4][0] == 0 and any(isinstance(x, list) and len(x) == 2 and x[0] in ("cp", "mv") and x[1][0] == dest for x in ([st[5][1]] if st[5][0] == "use" else [])):
+                            aborts = True
+                if aborts:
+                    ck.ok(R, "fallible-send|%s" % f.short)
+                else:
+                    ck.bad(R, "fallible-send|%s" % f.short, "%s hands the task over with `%s` and neither aborts on failure nor returns it: a full queue drops the task silently (it never runs)" % (f.short, short), f.where(t))
+            if short == "send" and ("mpsc" in c or "Sender" in c):
+                n += 1
+                ck.ok(R, "send|%s" % f.short)
+    ck.floor(R, "handoff_sites", n, 2)
+
+
 def run(ck, facts, tier):
     ck.floor("C11.anchor", "scheduler_bodies", len(facts.crate(SCHED).fns), 25)
+    rule_handoff(ck, facts)
     rule_queue_types(ck, facts)
     rule_task_order(ck, facts)
     rule_time_conversion(ck, facts)
